@@ -194,6 +194,10 @@ def cmd_run(prop, tier, seed):
     workdir = os.path.join(ROOT, "work", "%s-%s" % (prop, tier))
     shutil.rmtree(workdir, ignore_errors=True)
     os.makedirs(workdir)
+    os.makedirs(os.path.join(ROOT, "replays"), exist_ok=True)
+    for f in os.listdir(os.path.join(ROOT, "replays")):
+        if f.startswith(prop + "-"):
+            os.remove(os.path.join(ROOT, "replays", f))
     jobs = spec["jobs"]
     par = min(len(jobs), 4)
     workers = max(2, 16 // max(par, 1))
